@@ -13,6 +13,7 @@
      getall(c, t, found)   outside(reason)
      cadd(n, isdefault, starting, defname, desc, fac, cb, r, delegated, in = [n, desc, r, fac, cb])   a ComponentContext's add call and the
                                                    context-level call it delegated to (recorded within it)
+     csvc(func, name, action, r, delegated, in = [func, name, action, r])   the same for ComponentContext.start_service_task
    all but exit.begin with post = << [c, st, res = <<t, n, vid, gen>>.., fac = <<t, n, fid>>..] .. >> for every context.
    "other" = the call ended in a way the specification does not describe (a factory that raised, a cancellation): nothing
    is concluded from the result, the state must be unchanged.  The verdict names the property (or properties) of the first failing clause. *)
@@ -142,6 +143,14 @@ StepCAdd ==
            ELSE IF E.in.cb # E.cb THEN "C01:teardown-callback-lost-between-the-component-and-the-context"
            ELSE IF E.in.r # E.r THEN "C03,C18:outcome-of-the-delegated-registration-not-passed-on"
            ELSE "", "cadd")
+\* ComponentContext.start_service_task delegates with the arguments it was given (function, name, teardown action)
+StepCSvc ==
+  /\ UNCHANGED <<core, obs, vbind, fbind>>
+  /\ Judge(IF ~E.delegated THEN (IF E.r = "ok" THEN "C08:component-context-did-not-delegate-the-service-task" ELSE "")
+           ELSE IF E.in.func # E.func \/ E.in.name # E.name THEN "C08:another-service-task-started-than-the-component-asked-for"
+           ELSE IF E.in.action # E.action THEN "C08:teardown-action-changed-between-the-component-and-the-context"
+           ELSE IF E.in.r # E.r THEN "C08:outcome-of-the-delegated-start-not-passed-on"
+           ELSE "", "csvc")
 TInit == /\ tid \in 1..Len(Traces) /\ l = 1 /\ ok = TRUE /\ why = "" /\ at = 0 /\ live = TRUE /\ vbind = {} /\ fbind = {} /\ hits = {}
          /\ cstate = [c \in Ctxs |-> "unborn"] /\ parent = [c \in Ctxs |-> 0]
         /\ res = [c \in Ctxs |-> [k \in Keys |-> NoneR]] /\ fac = [c \in Ctxs |-> [k \in Keys |-> NoneR]]
@@ -158,6 +167,7 @@ TNext ==
             [] E.ev = "get" -> StepGet
             [] E.ev = "getall" -> StepGetAll
             [] E.ev = "cadd" -> StepCAdd
+            [] E.ev = "csvc" -> StepCSvc
             [] OTHER -> Outside(E.reason)
 Report == (l = Len(Traces[tid].events) + 1) =>
             PrintT(ToJson([end |-> Traces[tid].id, ok |-> ok, step |-> at, why |-> why, live |-> live, hits |-> SetToSeq(hits)]))
